@@ -169,6 +169,12 @@ func c13Modes() []c13Mode {
 		{"GIT_DIR relative", func(w, wt2, bare, el string, env, a []string) cli.Result {
 			return sizer(filepath.Dir(w), append(env, "GIT_DIR="+filepath.Base(w)+"/.git"), a)
 		}},
+		// the current directory is reached through a symbolic link (<dir>/link ->
+		// <work>/d, PWD holds the logical path): git resolves ../.git physically
+		{"GIT_DIR relative with .. through a symlinked cwd", func(w, wt2, bare, el string, env, a []string) cli.Result {
+			link := filepath.Join(filepath.Dir(w), "link")
+			return sizer(link, append(env, "GIT_DIR=../.git", "PWD="+link), a)
+		}},
 		{"git -C <dir> sizer", func(w, wt2, bare, el string, env, a []string) cli.Result {
 			return runTool(el, env, realgit.GitBin, append([]string{"-C", w, "sizer"}, a...)...)
 		}},
@@ -292,6 +298,7 @@ func c13Case(sh *explore.Shard, bi int, b c13Base, v c13Variant, modes []c13Mode
 		c0, _ := os.ReadFile(filepath.Join(gd, "config"))
 		os.WriteFile(filepath.Join(gd, "config"), append(c0, []byte(v.config)...), 0o644)
 	}
+	os.Symlink(filepath.Join(work, "d"), filepath.Join(dir, "link"))
 	bare := filepath.Join(dir, "bare.git")
 	if out, err := exec.Command("cp", "-r", gd, bare).CombinedOutput(); err != nil {
 		herr("cp: " + string(out))
@@ -410,6 +417,6 @@ func c13Case(sh *explore.Shard, bi int, b c13Base, v c13Variant, modes []c13Mode
 
 func init() {
 	Registry["C13"] = &Check{Level: "exploration", Worker: c13Worker, QuickBudget: 80 * time.Second, ThoroughBudget: 10 * time.Minute,
-		Rule:        "real binary + real git: 2 base repositories x {plain; every single replacement of a commit, tip commit, tree, subtree, blob, tag by an otherwise unreachable bigger/other object and by an object that is reachable in its own right, with and without GIT_NO_REPLACE_OBJECTS in the caller's environment, and with core.useReplaceRefs=true in the repository's configuration; every single graft (add a parent, drop all parents, redirect, give the root a parent) in .git/info/grafts and in a file named by GIT_GRAFT_FILE in the caller's environment; a shallow marker; a per-worktree reference (refs/worktree/only) in the linked worktree, which only runs addressed through that worktree must see; thorough additionally replaces every reachable object in turn, grafts every commit in turn, and combines every replacement with every graft} x 9 addressing modes of a repository whose path contains a blank (top, subdirectory, inside .git, bare copy, linked worktree, GIT_DIR absolute from the top of another repository's work tree, GIT_DIR relative, git -C <dir> sizer, git --git-dir=<d> sizer) x {JSON, verbose table}: stdout byte-identical across modes; numbers equal the oracle on the objects actually stored (refs/replace/* counting as ordinary references); shallow refused cleanly in every mode; plus, through fakegit's log, every git command of a run carries --no-replace-objects, GIT_GRAFT_FILE=/dev/null and the resolved GIT_DIR even when the caller's environment sets other values. non-trivial = every variant",
+		Rule:        "real binary + real git: 2 base repositories x {plain; every single replacement of a commit, tip commit, tree, subtree, blob, tag by an otherwise unreachable bigger/other object and by an object that is reachable in its own right, with and without GIT_NO_REPLACE_OBJECTS in the caller's environment, and with core.useReplaceRefs=true in the repository's configuration; every single graft (add a parent, drop all parents, redirect, give the root a parent) in .git/info/grafts and in a file named by GIT_GRAFT_FILE in the caller's environment; a shallow marker; a per-worktree reference (refs/worktree/only) in the linked worktree, which only runs addressed through that worktree must see; thorough additionally replaces every reachable object in turn, grafts every commit in turn, and combines every replacement with every graft} x 10 addressing modes of a repository whose path contains a blank (top, subdirectory, inside .git, bare copy, linked worktree, GIT_DIR absolute from the top of another repository's work tree, GIT_DIR relative, GIT_DIR relative with .. through a symlinked current directory, git -C <dir> sizer, git --git-dir=<d> sizer) x {JSON, verbose table}: stdout byte-identical across modes; numbers equal the oracle on the objects actually stored (refs/replace/* counting as ordinary references); shallow refused cleanly in every mode; plus, through fakegit's log, every git command of a run carries --no-replace-objects, GIT_GRAFT_FILE=/dev/null and the resolved GIT_DIR even when the caller's environment sets other values. non-trivial = every variant",
 		Assumptions: []string{"git 2.39.5; the linked worktree is created with git worktree add (detached at the root commit)"}}
 }
